@@ -138,8 +138,9 @@ def run(ctx):
         per = max(1, 1100 // len(buckets))
         variants = [c for key in sorted(buckets) for c in rng.sample(buckets[key], min(len(buckets[key]), per))]
         # every diagram with every option variant at least once (as a plot, without -x), whatever the sample holds
-        seen = set((c["m"], c["v"]) for c in variants)
-        variants += [c for c in res2.emitted if c["m"] in DIAGRAMS and c["x"] == "(default)" and c["t"] == "plot" and (c["m"], c["v"]) not in seen]
+        # ... and as the unconditional view (-x no), where several diagrams draw bars instead of lines (after seed C19-j)
+        seen = set((c["m"], c["v"], c["x"]) for c in variants if c["t"] == "plot")
+        variants += [c for c in res2.emitted if c["m"] in DIAGRAMS and c["x"] in ("(default)", "no") and c["t"] == "plot" and (c["m"], c["v"], c["x"]) not in seen]
         kinds = ["full", "missing-slice", "single-leadtime", "netcdf-%"]
     else:
         kinds = ["full", "missing-slice", "single-time", "single-location", "single-leadtime", "netcdf-%", "netcdf-m/s", "netcdf-^oC"]
